@@ -63,5 +63,18 @@ TUpdateAll ==
   /\ Chk("coherent_after_update", \A i \in Node : ~Ev.outd[i])
   /\ Step
 
-TNext == TSimulate \/ TAssign \/ TSetAuto \/ TUpdateAll
+\* Model.state getter / setter (a whole state of other parameter values is loaded without any flagging)
+TSave == IsEvent("save") /\ Save /\ Obs /\ Step
+TRestore == IsEvent("restore") /\ Restore(Ev.slot) /\ Obs /\ Step
+
+\* real TFP distributions: shapes follow the current values, the draws are those of a fresh model of these shapes
+TTfpSimulate ==
+  /\ IsEvent("tfp_simulate")
+  /\ Chk("simulate_with_real_distributions_completed", Ev.crash = "")
+  /\ Chk("draws_have_the_shapes_of_the_current_values",
+         Ev.first_shapes = <<<<>>, <<3>>, <<2, 3>>>> /\ Ev.second_shapes = <<<<>>, <<4>>, <<2, 4>>>>)
+  /\ Chk("draws_determined_by_the_seed_and_the_current_shapes", Ev.same_as_fresh)
+  /\ UNCHANGED <<gvars, svars>> /\ Step
+
+TNext == TTfpSimulate \/ TSimulate \/ TAssign \/ TSetAuto \/ TUpdateAll \/ TSave \/ TRestore
 =============================================================================
